@@ -151,4 +151,42 @@ theorem mergeTop_has (dk : Str) (out : Kvs) (t : Str) (v : V) (q : Str) :
       cases (Kvs.cons k w rest).has q <;> simp
     · simp [hq]
 
+theorem Kvs.has_iff_mem_keys : ∀ (m : Kvs) (q : Str), m.has q = true ↔ q ∈ m.keys
+  | .nil, q => by simp [Kvs.has, Kvs.keys]
+  | .cons k v rest, q => by
+    simp only [Kvs.has, Kvs.keys, Bool.or_eq_true, decide_eq_true_eq, List.mem_cons, Kvs.has_iff_mem_keys rest q]
+
+theorem Kvs.keys_append : ∀ (a b : Kvs), (a.append b).keys = a.keys ++ b.keys
+  | .nil, b => by simp [Kvs.append, Kvs.keys]
+  | .cons k v rest, b => by simp [Kvs.append, Kvs.keys, Kvs.keys_append rest b]
+
+theorem mergeKvs_keys (dk : Str) : ∀ (ka kb : Kvs), (mergeKvs dk ka kb).keys = ka.keys
+  | .nil, _ => by simp [mergeKvs, Kvs.keys]
+  | .cons k v rest, kb => by simp [mergeKvs, Kvs.keys, mergeKvs_keys dk rest kb]
+
+theorem mergeTop_keys (dk : Str) (out : Kvs) (t : Str) (v : V) :
+    (mergeTop dk out t v).keys = out.keys ++ (if out.has t then [] else [t]) := by
+  cases out with
+  | nil => simp [mergeTop, merge, V.asKvs, Kvs.keys, Kvs.has]
+  | cons k w rest =>
+    have hm : mergeTop dk (Kvs.cons k w rest) t v =
+        (mergeKvs dk (Kvs.cons k w rest) (Kvs.cons t v .nil)).append ((Kvs.cons t v .nil).without (Kvs.cons k w rest)) := by
+      simp [mergeTop, merge, V.falsy, V.asKvs]
+    rw [hm, Kvs.keys_append, mergeKvs_keys]
+    by_cases hh : (Kvs.cons k w rest).has t = true
+    · simp [Kvs.without, hh, Kvs.keys]
+    · have hh' : (Kvs.cons k w rest).has t = false := by simpa using hh
+      simp [Kvs.without, hh', Kvs.keys]
+
+theorem mergeTop_keys_nodup (dk : Str) (out : Kvs) (t : Str) (v : V) (h : out.keys.Nodup) :
+    (mergeTop dk out t v).keys.Nodup := by
+  rw [mergeTop_keys]
+  by_cases hh : out.has t = true
+  · simpa [hh] using h
+  · have hh' : out.has t = false := by simpa using hh
+    have hnm : t ∉ out.keys := fun hm => by
+      rw [← Kvs.has_iff_mem_keys] at hm; rw [hh'] at hm; cases hm
+    simp only [hh', Bool.false_eq_true, if_false]
+    exact List.nodup_append.mpr ⟨h, by simp, by intro a ha b hb; simp at hb; subst hb; exact fun e => hnm (e ▸ ha)⟩
+
 end Pyxv.Headers
